@@ -642,6 +642,10 @@ def render_layout(stmts, seed, file_index, opts=None):
         while opts.get('compound') and k in ('instr', 'asm') and i + 1 < n and stmts[i + 1][0] in ('instr', 'asm') and rng.random() < 0.3:
             text = text + _ws(rng, opts, 1) + layout_stmt(rng, opts, stmts[i + 1])
             i += 1
+        if text.startswith('#') and opts.get('ws') and ' ' in text and rng.random() < 0.5:
+            # any horizontal whitespace between a directive keyword and what follows it
+            kw_, rest_ = text.split(' ', 1)
+            text = kw_ + _ws(rng, opts, 1) + rest_
         if text.startswith('#'):
             # directives may be indented like everything else
             indent = _ws(rng, opts, 0) if opts.get('ws') and opts.get('indent_directives', True) and rng.random() < 0.4 else ''
